@@ -133,7 +133,13 @@ class Sys:
             if isinstance(leaf, (jax.Array, np.ndarray)) and np.shape(leaf) == () and float(leaf) in table:
                 return table[float(leaf)]
             return leaf
-        new = jax.tree_util.tree_map(rep, loss._loss_weights)
+        def keep_order(x):          # tree_map would rebuild every dictionary in sorted key order
+            if isinstance(x, dict):
+                return {k_: keep_order(v_) for k_, v_ in x.items()}
+            if isinstance(x, (list, tuple)):
+                return type(x)(keep_order(v_) for v_ in x)
+            return rep(x) if x is not None else None
+        new = keep_order(loss._loss_weights)
         return put_at(lambda l: l._loss_weights, loss, new)
 
     def build(self, a, form, ic_on, obs_on, bc_on=()):
